@@ -73,6 +73,12 @@ def circ_cases(run: Run, n):
     for i in range(n):
         g.band = False
         c = g.circuit(sparse=(i % 7 == 0), kinds="all")
+        if i % 3 == 0 and c["stmts"]:
+            # identity gates (which decompose to nothing) directly in front of other gates
+            import opensquirrel.default_gates as _dg
+            qs = [q for s in c["stmts"] for q in R.stmt_qubits(s)] or [0]
+            for _ in range(rng.randint(1, 3)):
+                c["stmts"].insert(rng.randrange(len(c["stmts"])), W.w_stmt(_dg.I(rng.choice(qs))))
         cases.append({"d": rng.choice(O.DECOMPOSERS), "c": c, "band": g.band})
     return cases
 
@@ -115,6 +121,20 @@ def shape_violation(d, s, out):
     elif d == "CNOT":
         if names.count("CNOT") > 2: return "more than two CNOT"
         if any(n not in ("CNOT", "Ry", "Rz") for n in names): return f"gate outside CNOT/Ry/Rz: {names}"
+    return None
+
+def circuit_shape_violation(d, stmts):
+    """C10 on a whole decomposed circuit: every gate in the decomposer's scope has been rewritten into the target set"""
+    for s in stmts:
+        if s["k"] != "gate": continue
+        g = s["g"]; nm = s["nm"]["name"] if s["nm"] else None
+        if d in ABA_AXES and g["k"] == "bsr":
+            if nm not in ABA_AXES[d]: return f"single-qubit gate {nm or 'anonymous'} left after the {d} pass"
+            if is_identity_gate(g): return "identity gate left"
+        elif d == "McKay" and g["k"] == "bsr":
+            if nm not in ("Rz", "X90"): return f"single-qubit gate {nm or 'anonymous'} left after the McKay pass"
+        elif d == "CNOT" and g["k"] == "ctrl" and g["g"]["k"] == "bsr":
+            if nm != "CNOT": return f"controlled gate {nm or 'anonymous'} left after the CNOT pass"
     return None
 
 def run_decomposition(run: Run, want_c01: bool, want_c10: bool):
@@ -162,9 +182,8 @@ def run_decomposition(run: Run, want_c01: bool, want_c10: bool):
             ok, dist, why = R.equiv_stmts(a["stmts"], b["stmts"], TOL_OP * max(1, len(b["stmts"])))
             if not ok: run.violation(f"decomposed circuit not equivalent ({why}, distance {dist:.3g})", c)
         if want_c10 and r["err"] is None:
-            for s in r["c"]["stmts"]:
-                if s["k"] == "gate" and s["nm"] is not None and is_identity_gate(s["g"]) and s["nm"]["name"] not in ("I",):
-                    pass
+            msg = circuit_shape_violation(c["d"], r["c"]["stmts"])
+            if msg: run.violation(f"Circuit.decompose({c['d']}): {msg}", c)
     if want_c10:
         check_pipeline_cnot_merge_mckay(run)
 
@@ -357,10 +376,10 @@ def perturb(g: G.Gen, gate, repl):
     bsr_idx = [i for i, s in enumerate(repl) if s["g"]["k"] == "bsr"]
     if bsr_idx:
         i = rng.choice(bsr_idx)
-        for eps in (1e-12, 1e-9, 1e-4, 1e-2, 1.0):
+        for eps in (1e-12, 1e-9, 1e-4, 3e-4, 1e-3, 1e-2, 1.0):
             p = copy.deepcopy(repl); gg = p[i]["g"]
             p[i] = W.w_stmt(BlochSphereRotation(gg["q"], gg["axis"], gg["angle"] + eps, gg["phase"]))
-            outs.append((f"angle+{eps:g}", p, True if eps <= 1e-9 else (False if eps >= 1e-4 else None)))
+            outs.append((f"angle+{eps:g}", p, True if eps <= 1e-9 else (False if eps >= 3e-4 else None)))
         j = rng.choice(bsr_idx)
         p = copy.deepcopy(repl); gg = p[j]["g"]
         p[j] = W.w_stmt(BlochSphereRotation(gg["q"], gg["axis"], gg["angle"], gg["phase"] + 0.7))
@@ -411,7 +430,7 @@ def check_C06(run: Run):
         on_qubits = all(set(R.gate_ops(s["g"])) <= qs for s in c["cand"])
         ok, dist, _ = R.equiv_stmts([c["g"]], c["cand"], TOL_OP) if on_qubits else (False, float("inf"), "")
         if accepted and not on_qubits: run.violation(f"accepted a replacement touching other qubits ({c['label']})", c)
-        elif accepted and dist > 1e-4: run.violation(f"accepted a replacement at operator distance {dist:.3g} ({c['label']})", c)
+        elif accepted and dist > 6e-5: run.violation(f"accepted a replacement at operator distance {dist:.3g} ({c['label']})", c)
         elif (not accepted) and on_qubits and dist < 1e-9: run.violation(f"rejected an exact replacement ({c['label']}, distance {dist:.3g}): {r['err']}", c)
         if not accepted and r["err"] != "ValueError": run.violation(f"rejection raised {r['err']} instead of ValueError ({c['label']})", c)
     # --- replace(): only the requested name is rewritten, spliced in place
@@ -437,6 +456,35 @@ def check_C06(run: Run):
         if W.diff(exp, r["c"]["stmts"], 1e-12): run.violation(f"replace({name}) did not splice the replacements exactly where the gates stood", {"name": name, "c": c})
         if r.get("callback_args") != [s["nm"]["args"] for s in matching]:
             run.violation(f"replace({name}) called the callback with other arguments than the gates'", {"name": name, "c": c})
+    # --- an empty replacement (identity gate) must not hide the next gate from the decomposer
+    import opensquirrel.default_gates as dg2
+    for _ in range(run.n(30, 300)):
+        nq = rng.randint(1, 3); q = rng.randrange(nq)
+        pre = g.circuit(n=nq, kinds="named", allow_band=False, length=rng.randint(0, 3), max_outcomes=0)["stmts"]
+        mid = [W.w_stmt(dg2.I(q))] * rng.randint(1, 3)
+        nxt = g.named1(q)
+        c = {"nq": nq, "nb": 1, "stmts": pre + mid + [nxt] + [W.w_stmt(dg2.H(rng.randrange(nq)))]}
+        # script: drop identities, answer the gate right after the identities with a WRONG proposal
+        script = []
+        for s_ in c["stmts"]:
+            if s_["k"] != "gate": continue
+            if s_ is nxt: script.append(("r", [g.named1(q), g.named1(q)])); break
+            script.append(("r", [] if (s_["nm"] and s_["nm"]["name"] == "I") else [s_]))
+        okp, dist, _ = R.equiv_stmts([nxt], script[-1][1], 1e-3)
+        r = O.impl_dcustom(c, script)
+        m = O.parse_pass(__import__("model").run_batch([O.req_dcustom(c, script)])[0])
+        run.count({"empty-then-wrong": c, "script": script}, tag="empty-replacement")
+        d = cmp_pass({"band": False}, r, m)
+        if d: run.mismatch("Circuit.decompose(custom, empty replacement): " + d, {"c": c, "script": script}, {"err": r["err"], "c": r["c"]}, m)
+        if not okp and r["err"] is None:
+            run.violation("a wrong proposal for the gate right after an empty replacement was not rejected", {"c": c, "script": script})
+        # replace(I -> []) removes every I
+        c2 = {"nq": nq, "nb": 1, "stmts": pre + mid + [nxt]}
+        nI = sum(1 for s_ in c2["stmts"] if s_["k"] == "gate" and s_["nm"] and s_["nm"]["name"] == "I")
+        r2 = O.impl_replace("I", c2, [("r", [])] * nI)
+        if r2["err"] is not None: run.violation(f"replace(I -> []) raised {r2['err']}", {"c": c2})
+        elif any(s_["k"] == "gate" and s_["nm"] and s_["nm"]["name"] == "I" for s_ in r2["c"]["stmts"]):
+            run.violation("replace(I -> []) left an I gate in the circuit", {"c": c2})
     # --- failure at position k: prefix replaced, rest intact, circuit well-formed and equivalent
     for i in range(run.n(40, 500)):
         c = g.circuit(n=rng.randint(1, 3), kinds="all", allow_band=False)
